@@ -367,6 +367,48 @@ def closure_captures(cls, fn, cfields):
     params = fn.args.args + fn.args.kwonlyargs
     pk = {p.arg: field_kind(ann_text(p.annotation)) for p in params if p.arg != "self"}
     nested = {st.name: st for st in ast.walk(fn) if isinstance(st, ast.FunctionDef) and st is not fn}
+    # LOCAL variables of the constructor computed from an array / module argument (or from such a local) hold arrays too: a closure
+    # capturing one of them hides that state just as capturing the argument itself would.  Static queries (`.shape`, `.ndim`, `.dtype`,
+    # `.size`, `len(…)`, `jnp.shape(…)`, `jnp.ndim(…)`, `jnp.broadcast_shapes(…)`) do not propagate.
+    STATIC_ATTRS = {"shape", "ndim", "dtype", "size"}
+    STATIC_CALLS = {"len", "jnp.shape", "jnp.ndim", "jnp.broadcast_shapes", "isinstance", "type"}
+
+    def mentions(e, names):
+        if isinstance(e, ast.Attribute) and e.attr in STATIC_ATTRS:
+            return False
+        if isinstance(e, ast.Call) and ast.unparse(e.func) in STATIC_CALLS:
+            return False
+        if isinstance(e, (ast.Lambda, ast.FunctionDef)):
+            return False
+        if isinstance(e, ast.Name):
+            return e.id in names
+        return any(mentions(ch, names) for ch in ast.iter_child_nodes(e))
+
+    def own_statements(f):
+        for st in f.body:
+            stack = [st]
+            while stack:
+                x = stack.pop()
+                if isinstance(x, (ast.FunctionDef, ast.Lambda)) and x is not f:
+                    continue
+                yield x
+                stack.extend(ast.iter_child_nodes(x))
+
+    tainted = {a for a, k in pk.items() if k in ("array", "module")}
+    changed = True
+    while changed:
+        changed = False
+        for st in own_statements(fn):
+            if isinstance(st, (ast.Assign, ast.AnnAssign)) and getattr(st, "value", None) is not None:
+                tg = st.targets if isinstance(st, ast.Assign) else [st.target]
+                names = [n.id for t in tg for n in ast.walk(t) if isinstance(n, ast.Name) and not (isinstance(t, ast.Attribute))]
+                if names and mentions(st.value, tainted):
+                    for nm in names:
+                        if nm not in tainted:
+                            tainted.add(nm)
+                            changed = True
+    for nm in tainted:
+        pk.setdefault(nm, "array")
     out = []
     for st in ast.walk(fn):
         if not isinstance(st, (ast.Assign, ast.AnnAssign)) or getattr(st, "value", None) is None:
